@@ -416,6 +416,9 @@ func (s *Store) instantiate(
 
 	// Now all the validation passes, we are safe to mutate memory instances (possibly imported ones).
 	if err = m.applyData(module.DataSection); err != nil {
+		// Functions of this module may already be referenced by imported tables, and so remain
+		// callable: complete the engine-level setup before failing.
+		m.Engine.DoneInstantiation()
 		return nil, err
 	}
 
